@@ -1,6 +1,6 @@
 """C01 — every executed iteration is counted exactly once, with its true outcome."""
 ID = "C01"
-PROPS = ["F1Verif.Props.C01", "F1Verif.Props.C17", "F1Verif.Props.FactsC01", "F1Verif.Props.RefineC17", "F1Verif.Props.RefineC17Run", "F1Verif.Props.RefineC06T"]
+PROPS = ["F1Verif.Props.C01", "F1Verif.Props.C17", "F1Verif.Props.FactsC01", "F1Verif.Props.RefineC17", "F1Verif.Props.RefineC17Run", "F1Verif.Props.RefineC06T", "F1Verif.Props.RefineC19R"]
 RULE = ("engine B: scripted schedules on the real progress.Stats through the progress.collect yield point — records of "
         "either outcome executed while a Snapshot/Total is parked between draining the period accumulators and merging "
         "them (every collect of a script may carry injections at its successful and at its failed yield point); "
@@ -16,6 +16,11 @@ ASSUMPTIONS = ["sync/atomic operations are sequentially consistent (Go memory mo
 
 def corpus():
     return [
+        "progress.seq s600000000000,s600000000000,S1,T",        # C01l: twenty minutes of iteration time within one period are still two iterations
+        "progress.seq f1100000000000,S1000,f1,T",
+        "progress.seq s9007199254740993,s1,T",
+        "progress.stress 8 60000 0 0 rising",              # C04k: every record a new maximum / minimum: no recorder may get stuck publishing it
+        "progress.stress 16 30000 3 0 rising",
         "run prop=C01 mode=file dur=3000 conc=1 file=c:200:1/100ms;c:500:1/100ms body=350 failevery=2",   # C01k: an iteration that outlives its stage keeps its own handle and outcome
         "run prop=C01 mode=file dur=3000 conc=2 file=c:250:2/100ms;c:600:2/100ms body=300,40 failevery=3",
         "progress.seq s0,s0,f0,f0,f0,S1000,T",      # C08k: failures that took 0 ns are failures
